@@ -76,6 +76,14 @@ func init() {
 		// (Range/Mutable/NewField/Append compositions), then recorded library calls are validated
 		mcReflectCheck(c, func(v ReflVerdict) bool { return !strings.HasPrefix(v.What, "nil:") })
 		codecTraceRun(c, "lib", 8, 100, func(v CodecVerdict) bool { return v.Ev == "lib" || v.Ev == "reset" })
+		// ... and every protoreflect call those algorithms make on a recording proxy is validated
+		// as a step of the reflection model, each library call as a whole against its value-level
+		// meaning (Trace_Lib.tla)
+		if c.Tier == "thorough" {
+			libTraceRun(c, 30, 90)
+		} else {
+			libTraceRun(c, 6, 50)
+		}
 		c.R.Assumptions = append(c.R.Assumptions, "JSON and text SYNTAX are compared against the reference implementation's documents, not against a TLA+ grammar (DESIGN section 7)")
 	}})
 	register(&Check{ID: "C14", Level: "model_checking", Run: func(c *Ctx) {
